@@ -102,6 +102,13 @@ type trCtx struct {
 	norder    int
 	resultTypes []types.Type // result types of the function (of the returned function literal for a curried method)
 	nresults  int // number of results of the function (of the returned function literal for a curried method)
+	// closures over captured state (trans_closure.go)
+	retHook      func(*ast.ReturnStmt) trLines                  // constructor of closures: `return nil` / `return &T{…}`
+	statePack    func() string                                  // callback: the record of the captured variables, first component of every result
+	stateVars    []*types.Var                                   // callback: the captured variables
+	nmark        int
+	inCallback   bool                                           // inside a closure that runs many times: untranslated calls are FUNCTION parameters
+	nilParamHook func(e ast.Expr, op token.Token) (string, bool) // `param == nil` for a pointer parameter read as a value
 }
 
 type trPre struct {
@@ -425,6 +432,9 @@ func (c *trCtx) externalCall(fobj *types.Func, x *ast.CallExpr) (string, bool) {
 	if c.t.funcs[fobj.Origin()] != nil {
 		return "", false
 	}
+	if c.inCallback {
+		return c.externalFn(fobj, x), true
+	}
 	if c.loop != nil || c.inLambda > 0 {
 		trFail(x.Pos(), "call of %s, which is not translated, inside a loop is outside the subset (outside loops its result would be a parameter)", full)
 	}
@@ -433,7 +443,11 @@ func (c *trCtx) externalCall(fobj *types.Func, x *ast.CallExpr) (string, bool) {
 	n := "ext" + itoa(c.norder)
 	c.extraParams = append(c.extraParams, "("+n+" : "+ty+")")
 	c.extraTypes = append(c.extraTypes, ty)
-	c.externals = append(c.externals, n+" = "+full+" ("+c.t.l.relPos(x.Pos())+")")
+	if c.retHook != nil {
+		c.externals = append(c.externals, n+" = "+trSrcText(c.t.l.fset, x)) // pinned by the agreement module: no line number
+	} else {
+		c.externals = append(c.externals, n+" = "+full+" ("+c.t.l.relPos(x.Pos())+")")
+	}
 	return n, true
 }
 
@@ -523,6 +537,11 @@ func (c *trCtx) binary(x *ast.BinaryExpr) string {
 		}
 		if other != nil {
 			if !trIsError(c.typeOf(other)) {
+				if c.nilParamHook != nil {
+					if r, ok := c.nilParamHook(other, x.Op); ok {
+						return r
+					}
+				}
 				trFail(x.Pos(), "comparison of %s with nil is outside the subset (only errors)", c.typeOf(other))
 			}
 			if x.Op == token.EQL {
@@ -800,7 +819,7 @@ func (c *trCtx) call(x *ast.CallExpr) string {
 	sigParams := fobj.Type().(*types.Signature).Params()
 	for i, a := range argExprs {
 		if i < sigParams.Len() && !fobj.Type().(*types.Signature).Variadic() {
-			args = append(args, c.exprAs(a, sigParams.At(i).Type()))
+			args = append(args, c.identityArg(fobj, i, a, c.exprAs(a, sigParams.At(i).Type())))
 		} else {
 			args = append(args, c.expr(a))
 		}
